@@ -50,6 +50,9 @@ func (C04) Generate(rng *rand.Rand, tier string, runIdx uint64) simkit.Plan {
 				s.SkipNode = false
 				s.Addr = "10.0.0.9"
 			}
+		case simkit.Chance(rng, 5):
+			p.Steps = append(p.Steps, g.Macro()...)
+			continue
 		default:
 			s = g.Next()
 		}
